@@ -161,7 +161,14 @@ def run(ctx):
     inside = [e for e in _effects(mb) + _effects(sm.body)]
     stray = [e for e in _effects(pu.node.body) if not any(e is i for i in inside)]
     ctx.check("R5", pu, not stray, "unknown-command-ignored", "an unknown command has no effect: nothing is recorded outside the move and slotmove branches")
-    ctx.floor("R5", 12)
+    # fields are separated by any run of blanks (tabs, aligned columns): the line is tokenised with str.split() without an
+    # argument — split(" ") yields empty fields / keeps tabs and well-formed lines are then skipped as malformed
+    toks = [c for c in A.calls(pu.node) if A.call_attr(c) in ("split", "rsplit") and isinstance(c.func.value, ast.Name)
+            and any(A.unparse(t) == A.unparse(c.func.value) for t, v, st in A.assignments(pu.node) if v is c)]
+    ctx.check("R5", pu, bool(toks) and all(not c.args and not c.keywords for c in toks), "fields-split-on-any-blank", "an update line is tokenised on any whitespace",
+              f"_process_updates tokenises a line with `{A.unparse(toks[0]) if toks else '?'}`: fields separated by a tab or by several blanks are not recognised, the line is rejected as "
+              f"malformed and its move / slotmove is lost from every chain", node=toks[0] if toks else pu.node)
+    ctx.floor("R5", 13)
 
     # ---- R6 flattening ---------------------------------------------------------------------------------------------
     fm = M.one(ru.node, "$mods = defaultdict($f)")  # the table by role: the defaultdict built from the start/tail factory
